@@ -3,9 +3,22 @@
 set -e
 cd "$(dirname "$0")"
 export CARGO_NET_OFFLINE=true
+mkdir -p work evidence
 python3 tools/gen_constants.py > /dev/null
 sh coq/gen_project.sh
-timeout 3000 make -C coq -j16
+# build the targets of the claimed properties (a work-in-progress file of an unclaimed
+# property must not break setup)
+TARGETS=$(python3 - <<'PY'
+import json,glob
+t=[]
+for f in sorted(glob.glob('props/C*.json')):
+    c=json.load(open(f))
+    if c.get('claimed',True):
+        t += [c['coq_target'], 'Run/%s.vo' % c['run_module']]
+print(' '.join(t))
+PY
+)
+timeout 3000 make -C coq -j16 -k $TARGETS
 [ -f harness/Cargo.lock ] || cp /repo/Cargo.lock harness/Cargo.lock
 (cd harness && timeout 3000 cargo build --offline --quiet)
 echo setup done
